@@ -45,11 +45,20 @@ TEXT_ALPHA = [chr(c) for c in list(range(0x20, 0x7f)) + list(range(0xa0, 0x100))
 TEXT_CTRL = [chr(c) for c in (10, 11, 12, 0x1c, 0x1d, 0x1e, 0x85, 9, 0, 0x7f)]
 
 
-SPECIAL_TEXTS = ['""', "''", "null", "None", "NULL", "-", "0", "nan", "{}", "[]", "[1, 2]", "false", " "]
+SPECIAL_TEXTS = ['""', "''", "null", "None", "NULL", "-", "0", "nan", "{}", "[]", "[1, 2]", "false", " ",
+                 # fixed-width padding is part of the text; latin-1 text whose bytes happen to be well-formed UTF-8
+                 "  7", "7  ", " a ", "   ", "\u00c2\u00b5mol/L", "\u00c3\u00a9", "caf\u00c3\u00a9 \u00c2\u00b0C"]
+
+
+MODE = [None]      # "utf8ish": ASCII text plus latin-1 text whose bytes are well-formed UTF-8 (and nothing else non-ASCII)
+UTF8ISH = ["\u00c2\u00b5mol/L", "\u00c3\u00a9", "caf\u00c3\u00a9", "\u00c2\u00b0C", "plain", "A1", "x y", "7.5"]
 
 
 def rand_text(r, maxlen=None):
-    if r.random() < 0.04:
+    if MODE[0] == "utf8ish":
+        t = r.choice(UTF8ISH)
+        return t if maxlen is None or len(t) <= maxlen else "a"[:maxlen]
+    if r.random() < 0.07:
         t = r.choice(SPECIAL_TEXTS)        # text that a program might mistake for "no value" or for structure
         if maxlen is None or len(t) <= maxlen:
             return t
@@ -77,6 +86,12 @@ def admissible(r, sp):
     k = sp["kind"]
     if k in ("text", "plain"):
         v = rand_text(r, sp["length"])
+        if sp["length"] is not None and sp["length"] >= 3 and r.random() < 0.3:
+            # fixed-width instruments pad their values; the padding belongs to the wire element
+            core = "".join(r.choice("AB19x") for _ in range(r.randrange(0, sp["length"] - 1)))
+            room = sp["length"] - len(core)
+            a = r.randrange(0, room + 1)
+            v = " " * a + core + " " * r.randrange(0, room - a + 1)
         return (v or None), (("eq", v) if v else ("default",))
     if k == "notUsed":
         v = rand_text(r)
